@@ -1,13 +1,15 @@
 package PKGNAME
 
 // C13 harness: the REAL commitChecker.commit (limb decomposition, recomposition constraint,
-// shifted most-significant limb, choice of the limb width) is executed against a symbolic
-// integer API: variables are integers, hint outputs (the limbs) are ADVERSARIAL symbolic values,
-// AssertIsEqual is an assumption the adversary must satisfy, and the log-derivative argument is
-// replaced by its specification (every query value is an entry of the table 0..2^base-1; its
-// soundness is the cryptographic part, see DESIGN.md). For 1 or 2 checked variables of widths in
-// {1,2,3,5,7,8,9,12,16} (the width mix changes the limb width the gadget picks), whatever limbs
-// the prover supplies: all constraints satisfied  =>  every checked value is < 2^bits.
+// shifted most-significant limb, choice of the limb width) is executed against a symbolic API
+// over FIELD values (stand-in field GF(251) in the machine-word model, so a limb may be any field
+// element, e.g. k*2^-shift; widths are kept <= 7 bits so that 2^bits < 251):
+// hint outputs (the limbs) are ADVERSARIAL, AssertIsEqual is an assumption the adversary must
+// satisfy, and the log-derivative argument is replaced by its specification (every query value
+// is one of the table entries 0..2^base-1; its soundness is the cryptographic part, see
+// DESIGN.md). For 1 or 2 checked variables of widths in {1,2,3,5,7} (the width mix
+// changes the limb width the gadget picks), whatever limbs the prover supplies:
+//     all constraints satisfied  =>  every checked value is an integer in [0, 2^bits).
 //verif:unwind 300000
 //verif:summarize logderivarg.Build verifSummary_logderivBuild
 //verif:replay interpreter
@@ -15,10 +17,13 @@ package PKGNAME
 import (
 	"math/big"
 
+	"github.com/consensys/gnark-crypto/ecc/bn254/fr"
 	"github.com/consensys/gnark/constraint/solver"
 	"github.com/consensys/gnark/frontend"
 	"github.com/consensys/gnark/std/internal/logderivarg"
 )
+
+func verifFIsIntBelow(x fr.Element, n uint64) bool { return false }
 
 type verifCompiler struct {
 	frontend.Compiler
@@ -27,9 +32,7 @@ type verifCompiler struct {
 func (c *verifCompiler) NewHint(f solver.Hint, nbOutputs int, inputs ...frontend.Variable) ([]frontend.Variable, error) {
 	outs := make([]frontend.Variable, nbOutputs)
 	for i := range outs {
-		v := verifNondetU64("limb") // adversarial hint output
-		verifAssume(v < 1<<20)       // larger values cannot be table entries (tables have at most 2^17 rows)
-		outs[i] = v
+		outs[i] = verifNondetFr("limb") // adversarial hint output: any field element
 	}
 	return outs, nil
 }
@@ -39,62 +42,74 @@ type verifAPI struct {
 	comp *verifCompiler
 }
 
-func verifVal(v frontend.Variable) uint64 {
+func verifVal(v frontend.Variable) fr.Element {
+	var e fr.Element
 	switch t := v.(type) {
-	case uint64:
+	case fr.Element:
 		return t
 	case int:
-		return uint64(t)
+		e.SetUint64(uint64(t))
 	case *big.Int:
-		return t.Uint64()
+		e.SetUint64(t.Uint64())
+	default:
+		panic("unexpected variable type")
 	}
-	panic("unexpected variable type")
+	return e
 }
 
 func (a *verifAPI) Compiler() frontend.Compiler { return a.comp }
 func (a *verifAPI) Add(i1, i2 frontend.Variable, in ...frontend.Variable) frontend.Variable {
-	r := verifVal(i1) + verifVal(i2)
+	r, y := verifVal(i1), verifVal(i2)
+	r.Add(&r, &y)
 	for _, x := range in {
-		r += verifVal(x)
+		y = verifVal(x)
+		r.Add(&r, &y)
 	}
 	return r
 }
 func (a *verifAPI) Mul(i1, i2 frontend.Variable, in ...frontend.Variable) frontend.Variable {
-	r := verifVal(i1) * verifVal(i2)
+	r, y := verifVal(i1), verifVal(i2)
+	r.Mul(&r, &y)
 	for _, x := range in {
-		r *= verifVal(x)
+		y = verifVal(x)
+		r.Mul(&r, &y)
 	}
 	return r
 }
-func (a *verifAPI) AssertIsEqual(i1, i2 frontend.Variable) { verifAssume(verifVal(i1) == verifVal(i2)) }
+func (a *verifAPI) AssertIsEqual(i1, i2 frontend.Variable) {
+	x, y := verifVal(i1), verifVal(i2)
+	verifAssume(x.Equal(&y))
+}
 
 var verifNbQueries int
 
-// specification of the log-derivative argument: the table is 0..n-1 and every query is in it
+// specification of the log-derivative argument: the table is 0..n-1 and every query is one of its rows
 func verifSummary_logderivBuild(api frontend.API, table logderivarg.Table, queries logderivarg.Table) error {
 	n := len(table)
 	for i := range table {
-		verifAssert(len(table[i]) == 1 && verifVal(table[i][0]) == uint64(i), "the range table is 0..2^base-1")
+		verifAssert(len(table[i]) == 1, "single column table")
+		t := verifVal(table[i][0])
+		var want fr.Element
+		want.SetUint64(uint64(i))
+		verifAssert(t.Equal(&want), "the range table is 0..2^base-1")
 	}
-	pow2 := n > 0 && n&(n-1) == 0
-	verifAssert(pow2, "the table size is a power of two")
+	verifAssert(n > 0 && n&(n-1) == 0, "the table size is a power of two")
 	for i := range queries {
-		verifAssume(verifVal(queries[i][0]) < uint64(n))
+		verifAssume(verifFIsIntBelow(verifVal(queries[i][0]), uint64(n)))
 		verifNbQueries++
 	}
 	return nil
 }
 
 func verifHarness_commitRangeCheck() {
-	widths := []int{1, 2, 3, 5, 7, 8, 9, 12, 16}
+	widths := []int{1, 2, 3, 5, 7}
 	nb := 1 + verifChoose(2)
 	c := &commitChecker{}
-	vals := make([]uint64, nb)
+	vals := make([]fr.Element, nb)
 	bits := make([]int, nb)
 	for i := 0; i < nb; i++ {
 		bits[i] = widths[verifChoose(len(widths))]
-		vals[i] = verifNondetU64("checked")
-		verifAssume(vals[i] < 1<<40) // the recomposition of in-table limbs is far below the field size
+		vals[i] = verifNondetFr("checked") // any field element
 		c.Check(vals[i], bits[i])
 	}
 	verifNbQueries = 0
@@ -103,7 +118,7 @@ func verifHarness_commitRangeCheck() {
 	verifAssert(err == nil, "commit succeeds")
 	verifAssert(verifNbQueries >= nb, "every checked variable contributes queries")
 	for i := 0; i < nb; i++ {
-		verifAssert(vals[i] < uint64(1)<<uint(bits[i]), "constraints satisfied => the checked value is below 2^bits")
+		verifAssert(verifFIsIntBelow(vals[i], uint64(1)<<uint(bits[i])), "constraints satisfied => the checked value is an integer below 2^bits")
 	}
 	verifReach("rangecheck")
 }
